@@ -3,7 +3,7 @@
   of the control script and any number of player threads at the yield points), any chunk
   counts, any control script; non-vacuity examples; audit.  Helper lemmas: `ALV.Lemmas.C17*`.
 -/
-import ALV.Lemmas.C17Inv
+import ALV.Lemmas.C17Close
 import ALV.Common.Audit
 
 namespace ALV.Props.C17
@@ -56,6 +56,38 @@ theorem play_after_close_raises (cfg : Cfg) (s s1 s2 : State) (a : List Int)
 script alone) -/
 example : ((runSched ⟨false, false, 2⟩ (init [.close, .play [1, 2, 3]])
     (List.replicate 9 Tid.main)).1.log) = [.closeOk [] 0, .playThreadError] := by decide
+
+/-- **C17.3 closed_after** — once the backend has been terminated (which only `close` does, as its
+last action) every device stream is closed, `_threads` is empty, the manager is finished, the
+backend was terminated exactly once, and every player thread is past all its backend calls and
+past `thread_finished` (at most the release of its own locks remains) — for every schedule,
+any number of players, any control script. -/
+theorem closed_after {cfg : Cfg} {script : List Cmd} {s : State} (h : Reach cfg script s)
+    (ht : 1 ≤ s.terminated) : closedAfter s = true :=
+  closedAfter_of_terminated h ht
+
+/-- … in particular in every state after a `close` call has returned -/
+theorem closed_after_close {cfg : Cfg} {script : List Cmd} {s : State} (h : Reach cfg script s)
+    (al : List Bool) (n : Nat) (hc : Ev.closeOk al n ∈ s.log) : closedAfter s = true :=
+  closedAfter_of_terminated h (by rw [(li_reach h).okTerm al n hc]; exact Nat.le_refl 1)
+
+/-- non-vacuity of `closed_after_close`: a full run of `play ; close` under a schedule with
+context switches ends with `close` returned and everything shut -/
+example : let s := (runSched ⟨false, false, 2⟩ (init [.play [101, 102, 103], .close])
+      ([0,0,0,0,0,0,0,0,0,0,0,1,1,1,1,0,1,1,1,1,1,0,0,0,0,0].map
+        fun n => if n = 0 then Tid.main else Tid.player (n - 1))).1
+    (Ev.closeOk [false] 0 ∈ s.log ∧ closedAfter s = true ∧ s.mpc = .done) := by decide
+
+/-- **C17.3b** the assertion `assert not self._pa._streams` in `close` never fails -/
+theorem close_assertion_holds {cfg : Cfg} {script : List Cmd} {s : State}
+    (h : Reach cfg script s) : Ev.closeAssertionError ∉ s.log ∧ s.mpc ≠ .kAssertRel :=
+  ⟨(li_reach h).noAssert, (si_reach h).g.noAssert⟩
+
+/-- **C17.3c backend_protocol** — no backend call that PortAudio would refuse is ever issued: no
+write on a stopped or closed stream, no stop/start/close of a closed stream, no stream call and
+no `open` after `terminate`. -/
+theorem backend_protocol {cfg : Cfg} {script : List Cmd} {s : State} (h : Reach cfg script s) :
+    s.perr = false := (si_reach h).g.noPerr
 
 /-! ### the deadlock of the code as it is (D10) -/
 
